@@ -429,6 +429,17 @@ func (vc *VC) loopNames(fr *Frame, li *loopInfo, phiVals map[*ssa.Phi]*Val) map[
 			names[n] = v
 		}
 	}
+	// the visited-set of a map range: #seen
+	for _, in := range li.header.Instrs {
+		if nx, ok := in.(*ssa.Next); ok {
+			if it, ok := fr.vals[nx.Iter]; ok && it.Path != "" {
+				if mt, ok := it.TypeV.(*types.Map); ok {
+					srt := "(Array " + vc.sortOf(mt.Key()) + " Bool)"
+					names["#seen"] = &Val{T: vc.get(it.Path, srt), Ty: &GhostArr{K: mt.Key(), V: types.Typ[types.Bool]}}
+				}
+			}
+		}
+	}
 	// the hidden indices of the enclosing loops: #i<ordinal>
 	for h, outer := range fr.loops {
 		if h == li.header || !outer.body[li.header] {
